@@ -4,7 +4,7 @@
 (* model CliBatch.tla and the trace specification TrBatch.tla.             *)
 (***************************************************************************)
 ValidKinds == {"defines", "usesOwn", "usesOther", "plain", "empty"}
-FaultKinds == {"undecodable", "dirnamed", "dangling", "unserialisable", "faultDefines"}
+FaultKinds == {"undecodable", "dirnamed", "dangling", "unserialisable", "faultDefines", "deepnest"}     \* deepnest: thousands of nested blocks (the CSS library gives up with a RecursionError)
 \* files that parse and serialise but whose OUTPUT cannot be written (text that cannot be encoded; the output name is taken
 \* by a directory).  The property demands nothing for these files themselves - only that the others are unaffected.
 WriteFaultKinds == {"unencodable", "outdir"}
